@@ -7,7 +7,8 @@ From Verif Require Import Base.Str Base.Outcome Model.Ast Model.Printer Model.Tr
 Record mfile := { mf_name : str; mf_text : str }.
 
 Inductive merror :=
-| MSyntax (file_index : nat)            (* the DSL errors of that file: carried over without a file name *)
+| MSyntax (file_index : nat)            (* the DSL errors of the file at that position of the list; the implementation writes the
+                                          name of that file into them (defect F16, repaired) *)
 | MConflict (msg file : str) (pos : position).
 
 Definition pos0 : position := {| line_start := 0; line_end := 0; col_start := 0; col_end := 0 |}.
